@@ -2,7 +2,7 @@
 # usage: tools/patch_matrix.sh <patch file> ...   -> per patch: checks reporting VIOLATION / undecided (all 20 quick checks on a scratch export of /repo HEAD)
 cd /verif
 one() {
-  p=$1; d=$(mktemp -d /var/tmp/pm.XXXXXX)
+  p=$(readlink -f $1); d=$(mktemp -d /var/tmp/pm.XXXXXX)
   git -C /repo archive HEAD | tar -x -C $d
   if ! (cd $d && patch -p1 -s < $p >/dev/null 2>&1); then echo "$p : PATCH-DOES-NOT-APPLY"; rm -rf $d; return; fi
   v=""; u=""
